@@ -93,7 +93,7 @@ theorem ttGet_nt {D : Int × Bool} {s : Eng M} (h : NT D s) (k : H) : ttGet s k 
 
 theorem ttProbe_nt (g : Game P M) (p : P) (ply : Nat) (depth α β : Int) {D : Int × Bool} {s : Eng M} (h : NT D s) :
     ttProbe g p ply depth α β s = .ok (.inr none, s) := by
-  unfold ttProbe; rw [ttGet_nt h]
+  unfold ttProbe; rw [ttGet_nt h]; rfl
 
 theorem ttPut_nt (o : Oracle M) {D : Int × Bool} {s : Eng M} (h : NT D s) (k : H) : ttPut o s k = .ok (none, s) := by
   unfold ttPut; simp [h.1]
